@@ -374,7 +374,9 @@ func (a *a13) checkFunc(f *ssa.Function, rules string) {
 				return w != nil && sameObj(w, v)
 			}, redefined, nil)
 			for _, d := range deferred {
-				if sameObj(d, v) {
+				// the deferred put runs on the paths on which its object was created: there a
+				// variable assigned from it (a phi with that edge) is the same object
+				if sameObj(d, v) || phiHasEdge(baseObj(v), baseObj(d), 0) || phiHasEdge(baseObj(d), baseObj(v), 0) {
 					found = true
 				}
 			}
@@ -513,4 +515,160 @@ func pooledOwnerOf(a *a13, f *ssa.Function, arg ssa.Value) ssa.Value {
 		}
 	}
 	return nil
+}
+
+// phiHasEdge: v is a phi one of whose (transitive) incoming values is x.
+func phiHasEdge(v, x ssa.Value, depth int) bool {
+	ph, ok := v.(*ssa.Phi)
+	if !ok || depth > 4 || x == nil {
+		return false
+	}
+	for _, e := range ph.Edges {
+		if e == x || sameObj(e, x) || phiHasEdge(e, x, depth+1) {
+			return true
+		}
+	}
+	return false
+}
+
+// ruleBufferPoolClean (A13d): a *bytes.Buffer taken from a sync.Pool must not carry the previous
+// user's bytes. Either every Put is preceded by Reset of that buffer on every path that reaches it
+// (a deferred Put: on every path from the defer to a return), or every Get is followed by Reset
+// before any other use. "WriteTo drained it" holds on the success path only.
+func ruleBufferPoolClean(r *Run, p *Prog, rels []string) {
+	n := 0
+	isBufPtr := func(t types.Type) bool { return isPointer(t) && typeIs(t, "bytes", "Buffer") }
+	isReset := func(x ssa.Instruction, buf ssa.Value) bool {
+		c, ok := x.(*ssa.Call)
+		if !ok || len(c.Call.Args) != 1 {
+			return false
+		}
+		if !(isCallTo(&c.Call, "(*bytes.Buffer).Reset") || isCallTo(&c.Call, "(*bytes.Buffer).Truncate")) {
+			return false
+		}
+		return sameRef(c.Call.Args[0], buf, 0)
+	}
+	for _, f := range p.ModFns {
+		okRel := false
+		for _, rel := range rels {
+			if pkgRel(f) == rel {
+				okRel = true
+			}
+		}
+		if !okRel || f.Blocks == nil {
+			continue
+		}
+		eachInstr(f, func(b *ssa.BasicBlock, i int, in ssa.Instruction) {
+			cc := callCommon(in)
+			if cc == nil || !isPoolPut(cc) || len(cc.Args) != 2 {
+				return
+			}
+			buf := stripIface(cc.Args[1])
+			if !isBufPtr(buf.Type()) {
+				return
+			}
+			n++
+			name := FnName(f) + "/put-clean:" + descr(baseObj(buf))
+			dirty := false
+			if _, isDefer := in.(*ssa.Defer); isDefer {
+				// runs at every return after the defer statement
+				dirty, _ = pathExists(f, in, isReturn, func(x ssa.Instruction) bool { return isReset(x, buf) }, nil)
+			} else {
+				// a Reset between the last write and the Put: no path from the entry to the Put avoids it…
+				// …and nothing writes to the buffer between that Reset and the Put
+				avoid := func(x ssa.Instruction) bool { return isReset(x, buf) }
+				dirty, _ = pathExists(f, nil, func(x ssa.Instruction) bool { return x == in }, avoid, nil)
+			}
+			if dirty {
+				// Get-side discipline instead: every Get of this pool in the package is Reset first
+				pool := cc.Args[0]
+				getClean, nGet := true, 0
+				for _, g := range p.ModFns {
+					if g.Pkg != f.Pkg || g.Blocks == nil {
+						continue
+					}
+					eachInstr(g, func(bb *ssa.BasicBlock, k int, x ssa.Instruction) {
+						gc, ok := x.(*ssa.Call)
+						if !ok || !isPoolGet(&gc.Call) || !sameObj(gc.Call.Args[0], pool) {
+							return
+						}
+						nGet++
+						// the asserted buffer
+						var got ssa.Value
+						for _, ref := range referrersOf(gc) {
+							if ta, ok := ref.(*ssa.TypeAssert); ok {
+								got = ta
+								if ta.CommaOk {
+									for _, r2 := range referrersOf(ta) {
+										if ex, ok := r2.(*ssa.Extract); ok && ex.Index == 0 {
+											got = ex
+										}
+									}
+								}
+							}
+						}
+						if got == nil {
+							getClean = false
+							return
+						}
+						used, _ := pathExists(g, x, func(y ssa.Instruction) bool {
+							return usesObj(y, got) && !isReset(y, got)
+						}, func(y ssa.Instruction) bool { return isReset(y, got) }, nil)
+						_ = used
+						// conservative: require a Reset of the value in the Get's own block right after it
+						okHere := false
+						for _, y := range bb.Instrs[k+1:] {
+							if isReset(y, got) {
+								okHere = true
+								break
+							}
+							if c2, isC := y.(*ssa.Call); isC && usesObj(y, got) && !isReset(y, got) && c2 != nil {
+								break
+							}
+						}
+						if !okHere {
+							getClean = false
+						}
+					})
+				}
+				if getClean && nGet > 0 {
+					dirty = false
+				}
+			}
+			r.Ob("A13d", name, p.Pos(in.Pos()), !dirty, true, tern(!dirty, "the buffer is emptied before it goes back to the pool (or right after every Get)", "a pooled buffer can go back to the pool still holding bytes (no Reset on some path to the Put, e.g. an error return, and Get does not reset it either): the next user — any goroutine, any writer — emits the stale bytes ahead of its own"))
+		})
+	}
+	if n == 0 {
+		r.Fail("A13d", "buffer-pools", "-", "no Put of a *bytes.Buffer into a sync.Pool found (ConsoleWriter and TriggerLevelWriter expected)")
+	}
+}
+
+// sameRef: two values denote the same object — the same SSA value, or two loads of the same
+// variable (a captured variable, a local, a field of the same base).
+func sameRef(x, y ssa.Value, depth int) bool {
+	x, y = baseObj(x), baseObj(y)
+	if x == y {
+		return true
+	}
+	if depth > 4 {
+		return false
+	}
+	lx, ok1 := x.(*ssa.UnOp)
+	ly, ok2 := y.(*ssa.UnOp)
+	if !ok1 || !ok2 || lx.Op != token.MUL || ly.Op != token.MUL {
+		return false
+	}
+	return sameAddr(lx.X, ly.X, depth+1)
+}
+
+func sameAddr(a, b ssa.Value, depth int) bool {
+	if a == b {
+		return true
+	}
+	fa, ok1 := a.(*ssa.FieldAddr)
+	fb, ok2 := b.(*ssa.FieldAddr)
+	if ok1 && ok2 && fa.Field == fb.Field {
+		return fa.X == fb.X || sameRef(fa.X, fb.X, depth+1)
+	}
+	return false
 }
